@@ -93,7 +93,8 @@ REQUIRED = {
 REQUIRED_EVENTS = {'const-tiny-branch': 20, 'const-root-branch': 50,
     'const-roundrobin-skips': 50, 'delta-negative-index': 30,
     'vdelta-negative-position': 30, 'rand-per-bond-ranks': 30,
-    'rand-scalar-rank': 30, 'rand-overlarge-rank': 5}
+    'rand-scalar-rank': 30, 'rand-overlarge-rank': 5,
+    'poly-nearly-equal-shifts': 20}
 ASSUMPTIONS = [
     'dense export = own longdouble chain contraction of the returned cores '
     '(ref.dense_ld); teneva.full / full_matrix are not used by any primary '
@@ -625,6 +626,16 @@ def run_poly(case, ctx, tv, rng):
         shift = [int(one(True)) for _ in range(d)]
     else:
         shift = [float(one(False)) for _ in range(d)]
+    if np.ndim(shift) == 1 and kind != 'intlist' and rng.random() < 0.25:
+        # per-mode shifts that differ only slightly (1e-9 absolute around 0,
+        # a few 1e-6 relative around a large value): still d different shifts
+        base = [0., 0., 1000., float(np.round(rng.uniform(-4, 12), 1))][
+            int(rng.integers(4))]
+        dl = 1e-9 if base == 0. else abs(base) * float(rng.choice([4e-6,
+            1e-7, 1e-9]))
+        shift = [float(base + dl * t * float(rng.integers(1, 4)))
+            for t in range(d)]
+        ctx.event('poly-nearly-equal-shifts')
     sh = [shift] * d if np.ndim(shift) == 0 else list(shift)
     arg = np.array(shift) if kind == 'ndarray' else shift
     n_arg = np.array(n) if rng.random() < 0.4 else list(n)
